@@ -3,7 +3,7 @@
 seeded change under /verif/seeded: git -C /repo apply <patch>, ./check,
 git -C /repo checkout -- . (always undone, also on error).
 
-usage: seeded_check.py [ids...]     (default: all)
+usage: seeded_check.py [--jobs=N] [ids...]     (default: all; --jobs=N works in N scratch worktrees instead of /repo)
 Writes /verif/seeded/RESULTS.json and prints a table.
 """
 import json, os, subprocess, sys
@@ -19,9 +19,72 @@ def sh(cmd, cwd=None):
 ALL_PROPS = ["C01", "C02", "C03", "C04", "C05", "C06", "C07", "C08", "C09", "C10", "C11", "C12", "C13", "C14", "C15", "C16", "C17", "C18", "C19", "C20"]
 
 
+def parallel(ids, jobs):
+    """The same verdicts from scratch worktrees of /repo's HEAD (outside /repo and
+    /verif, removed afterwards), `jobs` at a time, with the binary ./check builds."""
+    from concurrent.futures import ThreadPoolExecutor
+    import queue
+    rc, o = sh("./check C01 quick", cwd=ROOT)  # builds bin/biocheck from the current sources
+    slots = queue.Queue()
+    for k in range(jobs):
+        wt, vd = "/tmp/sc-wt-%d" % k, "/tmp/sc-verif-%d" % k
+        sh("git -C /repo worktree remove --force %s; rm -rf %s %s" % (wt, wt, vd))
+        rc, o = sh("git -C /repo worktree add --detach -q %s HEAD" % wt)
+        assert rc == 0, o
+        os.makedirs(vd + "/evidence")
+        sh("cp %s/known_findings.txt %s/" % (ROOT, vd))
+        slots.put((wt, vd))
+    results = {}
+
+    def one(i):
+        d = ROOT + "/seeded/" + i
+        meta = json.load(open(d + "/meta.json"))
+        prop = meta.get("breaks_property") or i.split("-")[-2]
+        wt, vd = slots.get()
+        try:
+            rc, o = sh("git -C %s apply --whitespace=nowarn %s/patch.diff" % (wt, d))
+            if rc != 0:
+                return i, {"property": prop, "status": "patch does not apply to /repo HEAD", "detail": o[-300:]}
+            rc, o = sh("%s/bin/biocheck -prop %s -tier quick -repo %s -verif %s" % (ROOT, prop, wt, vd))
+            if rc == 2 and not o.strip():
+                rc, o = sh("%s/bin/biocheck -prop %s -tier quick -repo %s -verif %s" % (ROOT, prop, wt, vd))
+            viol = [l.strip() for l in o.splitlines() if l.strip().startswith("violation:")]
+            und = [l.strip() for l in o.splitlines() if l.startswith("UNDECIDED")]
+            status = {0: "missed (check passes)", 1: "caught", 2: "no verdict (exit 2)"}.get(rc, "exit %d" % rc)
+            return i, {"property": prop, "status": status, "violations": [v[:400] for v in viol][:4], "undecided": [u[:300] for u in und][:3], "summary": meta.get("summary", "")[:300]}
+        finally:
+            sh("git -C %s checkout -- . && git -C %s clean -fdq" % (wt, wt))
+            slots.put((wt, vd))
+
+    try:
+        with ThreadPoolExecutor(max_workers=jobs) as ex:
+            for i, r in ex.map(one, ids):
+                results[i] = r
+    finally:
+        for k in range(jobs):
+            sh("git -C /repo worktree remove --force /tmp/sc-wt-%d; rm -rf /tmp/sc-wt-%d /tmp/sc-verif-%d" % (k, k, k))
+        sh("git -C /repo worktree prune")
+    return results
+
+
 def main():
     cross = "--all" in sys.argv
     sys.argv = [a for a in sys.argv if a != "--all"]
+    jobs = 0
+    for a in list(sys.argv):
+        if a.startswith("--jobs="):
+            jobs = int(a.split("=")[1])
+            sys.argv.remove(a)
+    if jobs > 1:
+        ids = sys.argv[1:] or sorted(d for d in os.listdir(ROOT + "/seeded") if os.path.isdir(ROOT + "/seeded/" + d))
+        res_path = ROOT + "/seeded/RESULTS.json"
+        results = json.load(open(res_path)) if os.path.exists(res_path) else {}
+        results.update(parallel(ids, jobs))
+        json.dump(results, open(res_path, "w"), indent=1, sort_keys=True)
+        for i in sorted(results):
+            r = results[i]
+            print("%-7s %-4s %-26s %s" % (i, r["property"], r["status"], (r.get("violations") or r.get("undecided") or [""])[0][:150]))
+        return 0
     ids = sys.argv[1:] or sorted(d for d in os.listdir(ROOT + "/seeded") if os.path.isdir(ROOT + "/seeded/" + d))
     rc, o = sh("git -C /repo status --porcelain")
     if o.strip():
